@@ -276,4 +276,10 @@ theorem C02_dispatch_translated (m : Motion) :
     Consts.hcuTriggerArms.contains (Hcu.armRow m) = true ∧ Consts.hcuTickArms.contains (Hcu.armRow m) = true := by
   cases m <;> simp only [Hcu.armRow] <;> exact ⟨by decide, by decide⟩
 
+/-- an accepted command reaches the network: the command task the frames are emitted from holds its receiver from the
+scheduling call on and handles every `Ok` (shape regenerated from runtime/mod.rs on every run) -/
+theorem C02_command_task_as_modelled :
+    Consts.cmdTaskOkDispatches = true ∧ Consts.cmdTaskLaggedContinues = true ∧
+    Consts.cmdRxSubscribedAtScheduling = true := by decide
+
 end Glonax.Thm.C02
